@@ -2,8 +2,10 @@
 //! Rust identifiers deliberately differ from the declared (`log_as`) names, and from the wire names.
 #![allow(clippy::too_many_arguments)]
 use conjure_error::Error;
+use conjure_http::client::{ConjureResponseDeserializer, DisplaySeqEncoder};
 use conjure_http::server::conjure::{FromPlainDecoder, FromPlainOptionDecoder};
-use conjure_http::{conjure_endpoints, endpoint};
+use conjure_http::server::StdResponseSerializer;
+use conjure_http::{conjure_client, conjure_endpoints, endpoint};
 use conjure_object::BearerToken;
 
 #[conjure_endpoints]
@@ -27,4 +29,49 @@ pub trait Svc {
         #[header(name = "X-Bar", decoder = FromPlainOptionDecoder, log_as = "barLog", safe)] bar_arg: Option<String>,
         #[auth(cookie_name = "TOKEN")] cookie_token: BearerToken,
     ) -> Result<(), Error>;
+
+    /// JSON body in, JSON value out
+    #[endpoint(method = POST, path = "/c", produces = StdResponseSerializer)]
+    fn e3(&self, #[body(log_as = "bodyLog")] body_arg: String) -> Result<String, Error>;
+}
+
+/// The client half of the same definition, expanded by the real #[conjure_client] (C04: client -> server composition).
+#[conjure_client]
+pub trait SvcApi {
+    #[endpoint(method = GET, path = "/a/{pathWire}")]
+    fn e1(
+        &self,
+        #[path(name = "pathWire")] path_arg: i32,
+        #[query(name = "queryWire")] query_arg: &str,
+        #[header(name = "X-Foo")] header_arg: i32,
+        #[auth] auth_token: &BearerToken,
+    ) -> Result<(), Error>;
+
+    #[endpoint(method = GET, path = "/b/{p}")]
+    fn e2(
+        &self,
+        #[path(name = "p")] p_arg: &str,
+        #[query(name = "optWire", encoder = DisplaySeqEncoder)] opt_arg: Option<i32>,
+        #[header(name = "X-Bar", encoder = DisplaySeqEncoder)] bar_arg: Option<&str>,
+        #[auth(cookie_name = "TOKEN")] cookie_token: &BearerToken,
+    ) -> Result<(), Error>;
+
+    #[endpoint(method = POST, path = "/c", accept = ConjureResponseDeserializer)]
+    fn e3(&self, #[body] body_arg: &str) -> Result<String, Error>;
+}
+
+/// async flavour of the client half
+#[conjure_client]
+pub trait SvcApiAsync {
+    #[endpoint(method = GET, path = "/a/{pathWire}")]
+    async fn e1(
+        &self,
+        #[path(name = "pathWire")] path_arg: i32,
+        #[query(name = "queryWire")] query_arg: &str,
+        #[header(name = "X-Foo")] header_arg: i32,
+        #[auth] auth_token: &BearerToken,
+    ) -> Result<(), Error>;
+
+    #[endpoint(method = POST, path = "/c", accept = ConjureResponseDeserializer)]
+    async fn e3(&self, #[body] body_arg: &str) -> Result<String, Error>;
 }
